@@ -65,6 +65,8 @@ type World struct {
 	FileOfPkg     map[string]*ContractFile
 	stable        map[string]bool
 	stableOnce    sync.Once
+	immut         map[string]bool
+	immutOnce     sync.Once
 }
 
 func parseModEntry(m string) *ModSpec {
@@ -73,6 +75,11 @@ func parseModEntry(m string) *ModSpec {
 	switch {
 	case m == "*":
 		ms.Kind = "all"
+	case strings.HasPrefix(m, "heap(") && strings.HasSuffix(m, ")"):
+		// heap(<pkgpath>.<Type>.<field>): that field of any object of the type
+		in := m[5 : len(m)-1]
+		i := strings.LastIndex(in, ".")
+		ms.Kind, ms.Name = "heap", "F|"+in[:i]+"|"+in[i+1:]
 	case strings.HasPrefix(m, "G_"):
 		i := strings.Index(m, "(")
 		if i < 0 {
@@ -350,6 +357,9 @@ func (w *World) GenerateSpecs() error {
 				zero = "nil"
 			}
 			fmt.Fprintf(&body, "func %s%s %s { return %s }\n\n", g.Name, g.Params, g.Result, zero)
+			if strings.TrimSpace(strings.Trim(strings.TrimSpace(g.Params), "()")) == "" {
+				fmt.Fprintf(&body, "func %s__old() %s { return %s }\n\n", g.Name, g.Result, zero)
+			}
 		}
 		for _, g := range cf.GoDecls {
 			body.WriteString(g + "\n\n")
